@@ -54,7 +54,9 @@ impl Prop for C02 {
         let (max_len, max_cells, max_labels) = tier.pick((64, 10, 10), (1024, 60, 60));
         let small = content_strategy(48, 8, 10, false);
         let big = content_strategy(max_len, max_cells, max_labels, false);
-        (prop_oneof![3 => small, 1 => big], proptest::collection::vec(any::<u64>(), 4..6), any::<u64>())
+        let (l_len, l_cells, l_labels) = tier.pick((24_000, 1_200, 500), (300_000, 70_000, 5_000));
+        let large = content_strategy(l_len, l_cells, l_labels, false);
+        (prop_oneof![60 * tier.pick(1u32, 8) => small, 20 * tier.pick(1u32, 8) => big, 1 => large], proptest::collection::vec(any::<u64>(), 4..6), any::<u64>())
             .prop_map(|(content, order_seeds, layout_seed)| Case { content, order_seeds, layout_seed })
             .boxed()
     }
@@ -223,6 +225,8 @@ impl Prop for C02 {
         cx.label_if(c.labels.values().any(|v| v.len() > 1), "multi-label-address");
         cx.label_if(c.cells.values().any(|x| matches!(x, Cell::Str(s) if c.labels.values().any(|v| v.contains(s)))), "string-equals-label-name");
         cx.label_if(c.len() % 4 != 0, "unaligned-length");
+        cx.label_if(c.len() > 4096, "data>4KiB");
+        cx.label_if(c.cells.len() > 255, ">255-annotated-cells");
         cx.label_if(alt != x, "alt-layout-differs");
     }
 }
